@@ -385,6 +385,51 @@ theorem loadKernel_fine {f g : Bytes} {secs : List ESection} (hl : f.length = g.
       simp only [if_neg hk]
       exact loadNamed_fine t hdf hdg lf lg syms k (fun s hs => hsel t s ht hs) (findV5_fine hl k syms hkd)
 
+/-- the empty name: no kernel symbol → the whole `.text`; exactly one → a load by its name;
+several → `log.Fatal`, nothing read -/
+theorem loadKernel_fine_empty {f g : Bytes} {secs : List ESection} (hl : f.length = g.length) (syms : List Symbol)
+    (h0 : syms.filter (isKernelSym (sectionsOf f secs)) = [] → CodeAgree f g secs)
+    (h1 : ∀ k0, syms.filter (isKernelSym (sectionsOf f secs)) = [k0] →
+      (∀ t s, secs.find? (fun s => s.name == ".text") = some t →
+        firstKernelSym (sectionsOf f secs) syms k0.name = some s →
+        AgOn f g (t.sh.off + wrapSub s.value t.sh.addr) s.size) ∧
+      (∀ ro s, secs.find? (fun s => s.name == ".rodata") = some ro →
+        syms.find? (fun s => s.name == k0.name ++ ".kd" && s.size == 64) = some s → ro.sh.addr ≤ s.value →
+        AgOn f g (ro.sh.off + (s.value - ro.sh.addr)) 64)) :
+    loadKernel (viewOf g secs (some syms)) "" = loadKernel (viewOf f secs (some syms)) "" := by
+  unfold loadKernel viewOf
+  simp only
+  rw [findSection_sectionsOf, findSection_sectionsOf,
+    show isKernelSym (sectionsOf g secs) = isKernelSym (sectionsOf f secs) from
+      funext (isKernelSym_congr f g secs)]
+  cases ht : secs.find? (fun s => s.name == ".text") with
+  | none => rfl
+  | some t =>
+    simp only [Option.map_some]
+    rcases secData_cases hl t.sh with ⟨e1, e2⟩ | ⟨df, dg, e1, e2, lf, lg, hdf, hdg⟩
+    · simp only [toSection, e1, e2]
+    · have e1' : (toSection f t).data = some df := e1
+      have e2' : (toSection g t).data = some dg := e2
+      rw [e1', e2']
+      simp only [if_true]
+      cases hfl : syms.filter (isKernelSym (sectionsOf f secs)) with
+      | nil =>
+        have hc := h0 hfl
+        have hn : isCode t.name = true := by
+          have := List.find?_some ht
+          rw [eq_of_beq this]; decide
+        have := hc t (List.mem_of_find?_eq_some ht) hn
+        rw [e1, e2] at this
+        injection this with this
+        rw [this]
+      | cons k0 rest =>
+        cases rest with
+        | nil =>
+          obtain ⟨hsel, hkd⟩ := h1 k0 hfl
+          exact loadNamed_fine t hdf hdg lf lg syms k0.name (fun s hs => hsel t s ht hs)
+            (findV5_fine hl k0.name syms hkd)
+        | cons k1 rest => rfl
+
 theorem mem_named_hdr {f : Bytes} {k : String} {r : Nat × Nat} (h : r ∈ hdrRanges f) : r ∈ namedRanges f k := by
   unfold namedRanges; exact List.mem_append_left _ h
 
@@ -407,7 +452,13 @@ theorem mem_named_sym {f : Bytes} {k : String} {secs : List ESection} (hp : pars
 
 theorem mem_named_tail {f : Bytes} {k : String} {secs : List ESection} (hp : parse f = .ok secs) {r : Nat × Nat}
     (hr : r ∈ (match symbolsOf f secs with
-        | .ok syms => if k = "" then codeRanges secs else selRanges f secs syms k
+        | .ok syms =>
+          if k = "" then
+            match syms.filter (isKernelSym (sectionsOf f secs)) with
+            | [] => codeRanges secs
+            | [s] => selRanges f secs syms s.name
+            | _ => []
+          else selRanges f secs syms k
         | _ => codeRanges secs)) : r ∈ namedRanges f k := by
   obtain ⟨shs, ndx, hq⟩ := parse_ok_hdrs hp
   unfold namedRanges
